@@ -103,3 +103,50 @@ def extras(tier, crate, seed):
     except Exception as e:
         out.update(status='undecided', reason='cannot slice the quadrature tables: %s' % e)
     return [out]
+
+# ---------------------------------------------------------------- composite trapezoid rule on a caller-supplied integrand: exact for affine integrands
+I = 'integrate::functions::'
+TRAPZ_SPEC = r'''
+/// the integrand, whatever it computes, returns c0 + c1 x  (hypothesis of the exactness clause of property C07)
+pub open spec fn is_affine<F: Fn(f64) -> f64>(f: F, c0: real, c1: real) -> bool { forall|x: f64, y: f64| f.ensures((x,), y) ==> rv(y) == c0 + c1 * rv(x) }
+/// sum over k = 1..m of c0 + c1 (a + k dx)
+pub open spec fn aff_sum(c0: real, c1: real, a: real, dx: real, m: int) -> real decreases m
+{ if m <= 0 { 0real } else { aff_sum(c0, c1, a, dx, m - 1) + (c0 + c1 * (a + (m as real) * dx)) } }
+pub proof fn lemma_aff_sum_closed(c0: real, c1: real, a: real, dx: real, m: int) requires m >= 0
+    ensures aff_sum(c0, c1, a, dx, m) == (m as real) * (c0 + c1 * a) + c1 * dx * ((m as real) * ((m as real) + 1real) / 2real)
+    decreases m
+{
+    if m > 0 { lemma_aff_sum_closed(c0, c1, a, dx, m - 1); nra_aff_step(m as real, c0, c1, a, dx); assert(((m - 1) as real) == (m as real) - 1real); }
+    else { nra_aff_zero(c0, c1, a, dx); }
+}
+pub proof fn lemma_terms_affine(tv: Seq<f64>, c0: real, c1: real, a: real, dx: real, k: int)
+    requires 0 <= k <= tv.len(), forall|j: int| 0 <= j < tv.len() ==> rv(#[trigger] tv[j]) == c0 + c1 * (a + ((j + 1) as real) * dx)
+    ensures rsum(tv, k) == aff_sum(c0, c1, a, dx, k)
+    decreases k
+{ if k > 0 { lemma_terms_affine(tv, c0, c1, a, dx, k - 1); assert(rv(tv[k - 1]) == c0 + c1 * (a + (k as real) * dx)); } }
+'''
+TRAPZ_NRA = [
+    Lemma('nra_aff_step', 'm c0 c1 a dx', [],
+          ['(= (+ (* (- m 1) (+ c0 (* c1 a))) (* (* c1 dx) (/ (* (- m 1) (+ (- m 1) 1)) 2)) (+ c0 (* c1 (+ a (* m dx))))) (+ (* m (+ c0 (* c1 a))) (* (* c1 dx) (/ (* m (+ m 1)) 2))))']),
+    Lemma('nra_aff_zero', 'c0 c1 a dx', [], ['(= 0 (+ (* 0 (+ c0 (* c1 a))) (* (* c1 dx) (/ (* 0 (+ 0 1)) 2))))']),
+    Lemma('nra_trapz_affine', 'n a b c0 c1 dx s ya yb', ['(>= n 1)', '(= dx (/ (- b a) n))', '(= s (+ (* (- n 1) (+ c0 (* c1 a))) (* (* c1 dx) (/ (* (- n 1) (+ (- n 1) 1)) 2))))', '(= ya (+ c0 (* c1 a)))', '(= yb (+ c0 (* c1 b)))'],
+          ['(= (* dx (+ s (/ (+ yb ya) 2))) (* (- b a) (+ c0 (/ (* c1 (+ a b)) 2))))']),
+]
+trapz = Fn(I + 'trapz', ret='r', level='L1',
+           requires=['C07.trapz.panels:: n >= 1', 'C07.trapz.total:: forall|x: f64| f.requires((x,))'],
+           ensures=['C07.trapz.affine:: forall|c0: real, c1: real| #[trigger] is_affine(f, c0, c1) ==> rv(r) == (rv(b) - rv(a)) * (c0 + c1 * (rv(a) + rv(b)) / 2real)'],
+           rewrites=[('dx * ((1..n).map(|k| f(a + k as f64 * dx)).sum::<f64>() + (f(b) + f(a)) / 2.)',
+                      '({ let mut acc_ = 0.; for k in 1..n { acc_ = acc_ + f(a + k as f64 * dx); } let yb_ = f(b); let ya_ = f(a); let out_ = dx * (acc_ + (yb_ + ya_) / 2.); '
+                      'proof { assert forall|c0: real, c1: real| #[trigger] is_affine(f, c0, c1) implies rv(out_) == (rv(b) - rv(a)) * (c0 + c1 * (rv(a) + rv(b)) / 2real) by { '
+                      'lemma_aff_sum_closed(c0, c1, rv(a), rv(dx), n - 1); assert(((n - 1) as real) == (n as real) - 1real); '
+                      'nra_trapz_affine(n as real, rv(a), rv(b), c0, c1, rv(dx), rv(acc_), rv(ya_), rv(yb_)); } } out_ })',
+                      'R37: `(A..B).map(|k| E).sum::<f64>()` is the in-order sum of E over k = A..B, written as its defining loop (same assumption as R6: std Sum<f64> is an in-order fold; '
+                      'the iterator-adapter form loses its vstd specification inside functions generic over a closure type); R31: end-point evaluations bound to names in evaluation order')],
+           loops={1: {'invariant': ['n >= 1', 'forall|x: f64| f.requires((x,))',
+                                    'C07.trapz.interior:: forall|c0: real, c1: real| #[trigger] is_affine(f, c0, c1) ==> rv(acc_) == aff_sum(c0, c1, rv(a), rv(dx), k - 1)'],
+                      'body_ghost': 'let ghost pre_acc = acc_;',
+                      'body_end': ('assert forall|c0: real, c1: real| #[trigger] is_affine(f, c0, c1) implies rv(acc_) == aff_sum(c0, c1, rv(a), rv(dx), k as int) by { '
+                                   'assert(rv(pre_acc) == aff_sum(c0, c1, rv(a), rv(dx), k - 1)); }')}})
+UNITS.append(Unit('C07_trapz', 'C07', [trapz], spec=SPEC + TRAPZ_SPEC, nra=TRAPZ_NRA, preludes=PRE, broadcast=BC, level='L1', types=core.TYPES, type_spec=core.TYPE_SPEC,
+                  notes='trapz on a caller-supplied integrand: for every number of panels n >= 1 and every integrand that returns c0 + c1 x the result is (b - a)(c0 + c1 (a + b)/2), the exact integral; '
+                        'the interior sum runs over k = 1..n-1 exactly once each'))
